@@ -174,6 +174,30 @@ pub fn run(ctx: &mut Ctx) {
             }
         }
     }
+    // identifier counts around 8/16/32/64 (and beyond what MAX_LENGTH lets back in: K2's
+    // neighbourhood is the length, not the count) built through the fields
+    ctx.stratum("FI-field-built-identifier-counts", false);
+    let nfi = ctx.tier.n(200, 20_000);
+    for i in 0..nfi {
+        if ctx.take() {
+            let mut r = Rng::for_case(ctx.seed, "C12-FI", i);
+            let n = *r.pick(&[7usize, 8, 9, 15, 16, 17, 31, 32, 33, 63, 64, 65, 100]);
+            let atoms = ["a", "0", "7", "-", "x", "Z", "rc", "10"];
+            let mut mv = crate::mv::MV::new(1, 2, 3);
+            match r.below(3) {
+                0 => mv.pre = (0..n).map(|_| r.pick(&atoms).to_string()).collect(),
+                1 => {
+                    mv.pre = vec!["rc".into()];
+                    mv.build = (0..n).map(|_| r.pick(&atoms).to_string()).collect();
+                }
+                _ => {
+                    mv.pre = (0..n / 2).map(|_| r.pick(&atoms).to_string()).collect();
+                    mv.build = (0..n / 2).map(|_| r.pick(&atoms).to_string()).collect();
+                }
+            }
+            judge(ctx, &mv.to_crate(), &format!("fields:{}", mv.text()), false);
+        }
+    }
     ctx.stratum("F-built-from-canonical-fields", false);
     let n = ctx.tier.n(50_000, 5_000_000);
     for i in 0..n {
